@@ -51,10 +51,24 @@ pub fn gen_case(seed: u64, index: u64) -> Case {
                 f
             }
         };
-        let op = match rng.below(52) {
+        let op = match rng.below(55) {
+            // reduction of fractions whose parts are far above the pool cap (the gcd takes its long-operand paths);
+            // the operation judges its own result and stores nothing
+            54 => Op::new("rbig.reduce").a(a).b(b).c(slot(&mut rng)).n(rng.below(8) as i64).m(rng.below(1 << 20) as i64).form(rng.below(3)),
+            // RBig values that come out of a decoder (fault-free and semantically corrupted encodings)
+            52 => Op::new("med.twin").a(a).b(b).dst(d).c(4).form(rng.below(3)).n(rng.below(9) as i64).m(rng.below(60) as i64),
+            53 => {
+                let mut lit = (rng.below(1 << 16) as u32).to_le_bytes().to_vec();
+                lit.push(rng.next() as u8);
+                if rng.chance(1, 2) {
+                    Op::new("med.serde").a(a).dst(d).c(4).form(rng.below(3)).m(if rng.chance(1, 2) { 0 } else { 1 + rng.below(7) as i64 }).lit(lit)
+                } else {
+                    Op::new("med.tokens").a(a).b(b).dst(d).c(4).n(rng.next() as i64).m(rng.below(1 << 30) as i64)
+                }
+            }
             // further producers of RBig values: only the canonical form (and R == X where both exist) is judged
             46 => Op::new(rng.pick(&["r.nearest", "r.simplest"])).a(a).b(b).dst(d).n(rng.below(3) as i64),
-            47 => Op::new("r.fromfloat").a(a).dst(d),
+            47 => Op::new("r.fromfloat").a(a).dst(d).form(rng.below(2)),
             // (r.fromf form 1 is simplest_from_f64, which exists for RBig only: forms 0 / 2 are the exact conversions)
             48 => {
                 if rng.chance(1, 2) {
@@ -63,11 +77,11 @@ pub fn gen_case(seed: u64, index: u64) -> Case {
                     Op::new("r.const").dst(d).n(rng.next() as i64).m(rng.below(1 << 30) as i64).form(rng.below(5))
                 }
             }
-            49 => Op::new("r.static").dst(d).n(rng.below(6) as i64).form(rng.below(3)),
+            49 => Op::new("r.static").dst(d).n(rng.below(9) as i64).form(rng.below(3)),
             50 => Op::new("r.str").a(a).dst(d).n(rng.below(35) as i64).form(rng.below(2)),
             51 => {
                 let bits = 1 + rng.below(300) as usize;
-                Op::new("f.lit").dst(d).form(rng.below(3)).n(rng.range(-60, 60)).m(rng.below(200) as i64).lit(gen_lit_bits(&mut rng, bits))
+                Op::new(rng.pick(&["f.lit", "d.lit"])).dst(d).form(rng.below(3)).n(rng.range(-60, 60)).m(rng.below(200) as i64).lit(gen_lit_bits(&mut rng, bits))
             }
             40 => Op::new("r.round").a(a).dst(d).form(rng.below(5)),
             41 => Op::new(rng.pick(&["r.fract", "r.split"])).a(a).dst(d).form(rng.below(3)),
@@ -315,6 +329,7 @@ pub fn run_case(case: &Case, stats: &mut Stats, cnt: &mut C04Counters) -> CaseRe
     simalloc::track(false);
     let mut q: Vec<BigRational> = (0..NP).map(|k| q_of(w.r[k].numerator(), w.r[k].denominator()).unwrap()).collect();
     let mut env = Env::new(false);
+    env.ratio_oracle = true;
 
     'steps: for (k, op) in case.ops.iter().enumerate() {
         CUR_STEP.store(k as u64, std::sync::atomic::Ordering::Relaxed);
@@ -329,6 +344,29 @@ pub fn run_case(case: &Case, stats: &mut Stats, cnt: &mut C04Counters) -> CaseRe
                 let _ = take_panic();
             }
             stats.steps += 1;
+            if let Some((class, detail)) = untracked(|| env.violation.take()) {
+                if class.starts_with("ratio.") {
+                    res.violation = Some(viol(&class, k, format!("{}: {}", op.name, detail)));
+                    break 'steps;
+                }
+            }
+            if op.name.starts_with("med.") {
+                // a decoder may have written R[dst]: it must be canonical; the reference and the Relaxed world follow it
+                let d = ix(op.dst);
+                let (n, dn) = (ibig_to_bigint(w.r[d].numerator()), ubig_to_bigint(w.r[d].denominator()));
+                if dn.is_zero() {
+                    res.violation = Some(viol("ratio.zero_denominator", k, format!("{}: R[{}] = {}", op.name, d, text_rbig(&w.r[d]))));
+                    break 'steps;
+                }
+                if !n.gcd(&dn).is_one() || (n.is_zero() && !dn.is_one()) {
+                    res.violation = Some(viol("ratio.not_lowest_terms", k, format!("{}: R[{}] = {}", op.name, d, text_rbig(&w.r[d]))));
+                    break 'steps;
+                }
+                q[d] = BigRational::new(n, dn);
+                simalloc::track(true);
+                w.x[d] = w.r[d].clone().relax();
+                simalloc::track(false);
+            }
             continue;
         }
         // reference first (pure), from the state before the step
